@@ -980,6 +980,22 @@ pub fn apply_adv<A: Adapter>(
                 _ => false,
             }
         }
+        // ---- PST13: point and witness list extended by one entry, the extra witness solved for a false value ----
+        "proof_mut" if adv.comp == "wlen_forged" => match st {
+            Stmt::Open { point, values, proof, .. } => {
+                use ark_crypto_primitives::sponge::CryptographicSponge;
+                if values.is_empty() {
+                    return false;
+                }
+                let mut sp = sp_v.fork_log();
+                let xi = sp.squeeze_field_elements_with_sizes::<A::F>(&[ark_poly_commit::CHALLENGE_SIZE])[0];
+                let d: A::F = delta(beh, "plus");
+                values[0] += d;
+                let t = if adv.k == 0 { xi * d } else { -(xi * d) };
+                A::extra_witness(&s.vk, point, proof, t)
+            }
+            _ => false,
+        },
         // ---- crafted proof for one group of the statement AS SHOWN (IPA: final key solved for the succinct check) ----
         "proof_mut" if adv.comp == "forge_ipa_key" => {
             let g = adv.l as usize;
